@@ -414,11 +414,17 @@ class MinimaxCondorcet:
             to produce them from ranked votes.
         :param n_seats: Number of candidates to select.
         """
-        # a candidate nobody is ranked above has no defeat at all
-        max_counterscore = {
-            cand: -float('inf') for pair in votes for cand in pair
+        candidates = list(dict.fromkeys(
+            cand for pair in votes for cand in pair
+        ))
+        # a pair nobody ranked counts as zero against zero
+        all_pairs = {
+            (upper, lower): votes.get((upper, lower), 0)
+            for upper in candidates for lower in candidates
+            if upper != lower
         }
-        for pair, score in self.pairwin_scoring(votes).items():
+        max_counterscore = {cand: -float('inf') for cand in candidates}
+        for pair, score in self.pairwin_scoring(all_pairs).items():
             max_counterscore[pair[1]] = max(
                 max_counterscore.get(pair[1], -float('inf')),
                 score
